@@ -968,6 +968,29 @@ pub fn gen_c10(thorough: bool, rng: &mut Rng, out: &mut Vec<String>) {
             push(out, &b);
         }
     }
+    // string records whose payload ends in NULs, with EVEN and ODD record lengths (a record of odd length is not GDSII;
+    // a reader that tolerates it — or strips padding differently — must still return only libraries the writer accepts)
+    {
+        let rec = |rt: u8, dt: u8, body: &[u8]| -> Vec<u8> { let l = body.len() + 4; let mut v = vec![(l >> 8) as u8, l as u8, rt, dt]; v.extend_from_slice(body); v };
+        let units = [0x3E, 0x41, 0x89, 0x37, 0x4B, 0xC6, 0xA7, 0xEF, 0x39, 0x44, 0xB8, 0x2F, 0xA0, 0x9B, 0x5A, 0x54];
+        for stem in [&b""[..], b"a", b"ab", b"abc"] {
+            for nuls in 0..=4usize {
+                let mut name = stem.to_vec();
+                name.extend(std::iter::repeat(0u8).take(nuls));
+                // (1) as the library name
+                let mut b = vec![];
+                b.extend(rec(0x00, 0x02, &[0, 3])); b.extend(rec(0x01, 0x02, &[0u8; 24])); b.extend(rec(0x02, 0x06, &name)); b.extend(rec(0x03, 0x05, &units)); b.extend(rec(0x04, 0x00, &[]));
+                push(out, &b);
+                // (2) as a structure name and a text string
+                let mut b = vec![];
+                b.extend(rec(0x00, 0x02, &[0, 3])); b.extend(rec(0x01, 0x02, &[0u8; 24])); b.extend(rec(0x02, 0x06, b"lib\0")); b.extend(rec(0x03, 0x05, &units));
+                b.extend(rec(0x05, 0x02, &[0u8; 24])); b.extend(rec(0x06, 0x06, &name));
+                b.extend(rec(0x0C, 0x00, &[])); b.extend(rec(0x0D, 0x02, &[0, 1])); b.extend(rec(0x16, 0x02, &[0, 0])); b.extend(rec(0x10, 0x03, &[0, 0, 0, 1, 0, 0, 0, 2])); b.extend(rec(0x19, 0x06, &name)); b.extend(rec(0x11, 0x00, &[]));
+                b.extend(rec(0x07, 0x00, &[])); b.extend(rec(0x04, 0x00, &[]));
+                push(out, &b);
+            }
+        }
+    }
     // several LONG records in one stream, in rising, falling and mixed sizes (a reader that resizes or reuses a buffer
     // between records sees each combination), complete and cut inside the last long record
     {
